@@ -469,6 +469,13 @@ func c14OneFaultHist(r *Run, h faultHist) {
 	answer := c14RunFaultHist(parseLine(line)[1:])
 	r.record(line, answer)
 	r.count(tag)
+	for _, st := range steps {
+		if st.kind == "E" && st.limit > 0 && !st.ro {
+			// the environment of the brief's `cli.env` cases: the cache directory fills up mid-write
+			r.count("env/cache directory full (file-size limit on the entry, stdout a pipe)")
+			break
+		}
+	}
 	r.eval(line, want.status == 0 && len(want.out) > 0)
 
 	// oracle, on the real binary
@@ -522,4 +529,6 @@ func c14OneFaultHist(r *Run, h faultHist) {
 }
 
 // inRand: a FASTA record of n pseudo-random residues, rebuilt from (n, seed) on both ends
-func inRand(n, seed int) cliInput { return cliInput{kind: "rand", n: n, raw: []byte(strconv.Itoa(seed))} }
+func inRand(n, seed int) cliInput {
+	return cliInput{kind: "rand", n: n, raw: []byte(strconv.Itoa(seed))}
+}
